@@ -62,25 +62,28 @@ if not a.skip_confirm:
     res['confirmation'] = conf
     print('confirmation:', json.dumps({k: v for k, v in conf.items() if not k.endswith('_tail')}))
 
-# our checks against the change
+# our checks against the change: in a scratch worktree (VERIF_REPO), so that /repo itself is never touched and several
+# evaluations can run side by side; evidence goes to a scratch directory
 det = {}
-rc, out = sh('git apply --check %s' % patch, cwd='/repo')
+wt2 = '/tmp/wt/chk_%s_%s' % (a.pid, a.k)
+sh('git -C /repo worktree remove --force %s' % wt2)
+sh('git -C /repo worktree add --detach -f %s HEAD' % wt2)
+rc, out = sh('git apply --check %s && git apply %s' % (patch, patch), cwd=wt2)
 if rc != 0:
     det['error'] = 'patch does not apply to /repo HEAD: ' + out[-200:]
 else:
     try:
-        sh('git apply %s' % patch, cwd='/repo')
+        env = 'VERIF_REPO=%s VERIF_EVIDENCE_DIR=/tmp/ev_%s_%s' % (wt2, a.pid, a.k)
         for c in checks:
             t0 = time.time()
-            rc, out = sh('bin/check %s --tier %s' % (c, a.tier), cwd='/verif', timeout=7200)
+            rc, out = sh('%s bin/check %s --tier %s' % (env, c, a.tier), cwd='/verif', timeout=7200)
             lines = [l for l in out.splitlines() if l.startswith('VIOLATION') or 'signature:' in l or l.startswith('MACHINERY')]
             det[c] = {'rc': rc, 'detected': rc == 1, 'wall_s': round(time.time() - t0, 1), 'report': lines[:8]}
             print('check %s: rc=%d %s' % (c, rc, '; '.join(l.strip()[:160] for l in lines[:3])))
     finally:
-        sh('git checkout -- .', cwd='/repo')
-        st = sh('git status --short', cwd='/repo')[1]
-        if [l for l in st.splitlines() if not l.startswith('??')]:
-            print('WARNING: /repo not clean after revert:\n' + st)
+        pass
+sh('git -C /repo worktree remove --force %s' % wt2)
+sh('rm -rf /tmp/ev_%s_%s' % (a.pid, a.k))
 res['our_checks'] = {'tier': a.tier, 'results': det}
 os.makedirs(dst, exist_ok=True)
 for f in os.listdir(src):
